@@ -120,7 +120,7 @@ def _build(case, tu, geom_of):
 def _run(case, tu, geom_of):
     cp, ca, tags, geoms = _build(case, tu, geom_of)
     clip_id = {_uid(1, c["id"]): c["id"] for c in case["clips"]}
-    out = {"raised": "", "clips": [], "score": _V(0.0), "aff": []}
+    out = {"raised": "", "cs": int(100 * tu), "clips": [], "score": _V(0.0), "aff": []}
     with warnings.catch_warnings():
         warnings.simplefilter("ignore")
         for c in case["clips"]:
